@@ -9,6 +9,8 @@ CONSTANTS
   MaxBatch = 4
   LogDeletes = FALSE
   ReplayOverwrites = FALSE
+  PointSetName = "all"
+  NoMaint = FALSE
   UseIds = TRUE
   SchemaNames = {"s0", "s1", "s2"}
   VKs = {TRUE, FALSE}
